@@ -39,20 +39,20 @@ fn gen_name(rng: &mut Rng, email: bool) -> String {
     } else {
         &["Ann", "Bob B", "\u{c9}mile Zol\u{e0}", "a"]
     };
-    match rng.below(160) {
-        0..=19 => String::new(),
-        20..=22 => PLACEHOLDER.to_string(),
-        23 => " Ann".to_string(),
-        24 => "Ann ".to_string(),
-        25 => "\u{a0}Ann\u{2003}".to_string(),
-        26 => " ".to_string(),
-        27 => "a<b".to_string(),
-        28 => "a>b".to_string(),
-        29 => "a\nb".to_string(),
-        30 => format!("{PLACEHOLDER} "),
-        31..=34 => "Ann  B".to_string(),
-        35 => "\t".to_string(),
-        36 => "\u{3000}".to_string(),
+    match rng.below(480) {
+        0..=59 => String::new(),
+        60..=63 => PLACEHOLDER.to_string(),
+        64 => " Ann".to_string(),
+        65 => "Ann ".to_string(),
+        66 => "\u{a0}Ann\u{2003}".to_string(),
+        67 => " ".to_string(),
+        68 => "a<b".to_string(),
+        69 => "a>b".to_string(),
+        70 => "a\nb".to_string(),
+        71 => format!("{PLACEHOLDER} "),
+        72..=83 => "Ann  B".to_string(),
+        84 => "\t".to_string(),
+        85 => "\u{3000}".to_string(),
         _ => (*rng.pick(ordinary)).to_string(),
     }
 }
@@ -172,7 +172,7 @@ fn gen_commit(rng: &mut Rng, env: &Env, earlier: &[CommitId]) -> Commit {
     };
     let root_tree = Merge::from_vec((0..2 * sides - 1).map(|_| gen_tree_id(rng, env)).collect::<Vec<_>>());
     let conflict_labels = if sides == 1 {
-        if rng.chance(1, 40) { Merge::resolved("stray".to_string()) } else { Merge::resolved(String::new()) }
+        if rng.chance(1, 100) { Merge::resolved("stray".to_string()) } else { Merge::resolved(String::new()) }
     } else {
         match rng.below(20) {
             0 => Merge::resolved(String::new()), // conflict without labels
